@@ -9,6 +9,7 @@ Sub-checks
             interleaved must not be affected
   optfree   the argument-free optimized renamer under all 32 option combinations
   optargs   the argument-passing optimized renamer under its 8 valid combinations
+  optkw     the keyword-argument-passing optimized renamer under its 4 valid combinations
 """
 from __future__ import annotations
 
@@ -45,7 +46,7 @@ RULE = ("Call histories (3-25 calls) on one mapper instance over pools that cont
         "mapped under two argument tuples; distinct by sha1 of the case spec.")
 ASSUMPTIONS = [
     "the non-memoizing counterpart applied afresh defines the expected result",
-    "strict (constant-type-sensitive) agreement is demanded only in histories without two composite sub-expressions that are == but differ in a constant's type (such composites are legitimately one cache key)",
+    "calls whose expression contains a node that is == to an earlier one but differs in a constant's type are judged like all others; their failures carry the suffix ':retyped-composite' and are the known finding F38",
     "for optimized classes the at-most-once obligation is demanded only when recursion still goes through the cache (not for inline_rec without inline_cache, which by construction turns self.rec into plain dispatch)",
     "mapper instances get one fixed context/flag set each (the documented precondition of CachedMapper.get_cache_key: no mutable state)",
 ]
@@ -267,19 +268,18 @@ def check_history(spec):
                 _run(other, which, pool[(i + 1) % len(pool)], alphabet[(a + 1) % len(alphabet)])
             except Exception:
                 pass
-        if call_amb:
-            continue
+        sfx = ":retyped-composite" if call_amb else ""
         if want[0] == "err" or got[0] == "err":
             if want[0] != got[0] or want[1] != got[1]:
-                res.fail(f"{which}:outcome-differs-from-uncached",
+                res.fail(f"{which}:outcome-differs-from-uncached{sfx}",
                          f"call {step} on {e!r} {args!r}: memoizing mapper {got[:2]}, "
                          f"fresh non-memoizing mapper {want}")
             continue
         if which == "walk":
             # observable: set of distinct nodes post-visited so far
             walk_seen_total |= want[1]
-            if walk_valid and set(cached.seen) != walk_seen_total:
-                res.fail("walk:visited-set-differs",
+            if set(cached.seen) != walk_seen_total:
+                res.fail("walk:visited-set-differs" + ("" if walk_valid else ":retyped-composite"),
                          f"after call {step} on {e!r}: cached walk saw {len(set(cached.seen))} "
                          f"distinct nodes, uncached walks {len(walk_seen_total)}")
             continue
@@ -287,17 +287,17 @@ def check_history(spec):
             same = values_agree(got[1], want[1])
             if same and type(got[1]) is not type(want[1]) and not callable(got[1]) \
                     and not isinstance(got[1], (bool, int, float)) :
-                res.fail("evaluate:result-type-shared-across-constant-types",
+                res.fail("evaluate:result-type-shared-across-constant-types" + sfx,
                          f"call {step} on {e!r}: {got[1]!r} vs fresh {want[1]!r}")
         else:
             same = _norm(got[1], False) == _norm(want[1], False)
         if not same:
-            res.fail(f"{which}:result-differs-from-uncached",
+            res.fail(f"{which}:result-differs-from-uncached{sfx}",
                      f"call {step} (history {spec['calls'][:step + 1]}) on {e!r} with "
                      f"{args!r}: memoizing mapper returned {got[1]!r}, a fresh "
                      f"non-memoizing mapper {want[1]!r}")
         elif which != "evaluate" and _norm(got[1], True) != _norm(want[1], True):
-            res.fail(f"{which}:result-shared-across-constant-types",
+            res.fail(f"{which}:result-shared-across-constant-types{sfx}",
                      f"call {step} on {e!r} with {args!r}: memoizing mapper returned "
                      f"{got[1]!r}, fresh {want[1]!r} (differ in a constant's type)")
     # once-only: every (handler, expression, arguments) at most once per instance
@@ -325,12 +325,14 @@ def check_history(spec):
     return res
 
 
-def _opt_check(res, cls, plain, pool, calls, argsets, tag, kind, memoizes=True):
+def _opt_check(res, cls, plain, pool, calls, argsets, tag, kind, memoizes=True,
+               kwsets=({},)):
     inst = cls()
     strict_of, amb_keys = {}, set()
     for step, (i, a) in enumerate(calls):
         e = pool[i % len(pool)]
         args = argsets[a % len(argsets)]
+        kw = kwsets[(a // len(argsets)) % len(kwsets)]
         res.compared()
         nks = []
         for _, n in walk.occurrences(e):
@@ -341,12 +343,12 @@ def _opt_check(res, cls, plain, pool, calls, argsets, tag, kind, memoizes=True):
                 amb_keys.add(nk)
         call_amb = any(nk in amb_keys for nk in nks)
         try:
-            want = plain()(e, *args)
+            want = plain()(e, *args, **kw)
         except Exception as exc:
             raise HarnessError(f"plain renamer raised {exc!r}") from exc
         del O.CALLS[:]
         try:
-            got = inst(e, *args)
+            got = inst(e, *args, **kw)
         except Exception as exc:
             res.fail(f"{kind}:{tag}:raised:{type(exc).__name__}",
                      f"optimized mapper {tag} on {e!r} {args!r}: {type(exc).__name__}: {exc}")
@@ -356,8 +358,9 @@ def _opt_check(res, cls, plain, pool, calls, argsets, tag, kind, memoizes=True):
                      f"optimized mapper {tag}, call {step} on {e!r} {args!r}: {got!r}, "
                      f"unoptimized non-memoizing mapper {want!r}")
             return
-        if not call_amb and walk.key(got, strict=True) != walk.key(want, strict=True):
-            res.fail(f"{kind}:{tag}:result-shared-across-constant-types",
+        if walk.key(got, strict=True) != walk.key(want, strict=True):
+            res.fail(f"{kind}:{tag}:result-shared-across-constant-types"
+                     + (":retyped-composite" if call_amb else ""),
                      f"optimized mapper {tag}, call {step} on {e!r}: {got!r} vs {want!r}")
             return
         c = Counter(O.CALLS)
@@ -413,7 +416,36 @@ def check_optargs(spec):
     return res
 
 
-CHECKS = {"history": check_history, "optfree": check_optfree, "optargs": check_optargs}
+def _known_retyped_composite(sub, spec, fail):
+    """F38: the memoization key tells constants of different type apart only at the top
+    level: composite expressions that are == but contain constants of different type
+    (2*x and 2.0*x, x[1] and x[1.0]) share one cache entry."""
+    return fail.kind.endswith(":retyped-composite")
+
+
+KNOWN = {"F38": _known_retyped_composite}
+
+KWARGSETS = [(frozenset({"x"}),), (frozenset({"y", "f"}),), (frozenset({"x", "y"}),)]
+KWSETS = ({}, {"suffix": "_k"}, {"suffix": "_j"})
+
+
+def check_optkw(spec):
+    res = Result()
+    pool = build_pool(spec["pool"])
+    if O.OPT_KW_ERRORS:
+        c, exc = sorted(O.OPT_KW_ERRORS.items())[0]
+        res.fail("optkw:optimize_mapper-raised", f"options {c}: {type(exc).__name__}: {exc}")
+    names = ("inline_rec", "inline_get_cache_key")
+    for combo, cls in sorted(O.OPT_KW.items()):
+        _opt_check(res, cls, O.PlainKwRenamer, pool, spec["calls"], KWARGSETS,
+                   _tag(combo, names), "optkw", memoizes=not combo[0], kwsets=KWSETS)
+    res.nontrivial = len({a for _, a in spec["calls"]}) >= 2
+    res.label("optimizer")
+    res.sample = {"pool": [repr(x)[:80] for x in pool], "calls": spec["calls"][:8]}
+    return res
+
+
+CHECKS = {"history": check_history, "optkw": check_optkw, "optfree": check_optfree, "optargs": check_optargs}
 
 
 # {{{ generators
@@ -504,7 +536,7 @@ OPT_NODES = tuple(n for n in S.ALL_COMPOSITE)
 @st.composite
 def opt_case(draw):
     pool = draw(pool_for("rename"))
-    calls = [[draw(st.integers(0, 7)), draw(st.integers(0, 3))]
+    calls = [[draw(st.integers(0, 7)), draw(st.integers(0, 11))]
              for _ in range(draw(st.integers(1, 6)))]
     return {"pool": pool, "calls": calls}
 
@@ -515,8 +547,9 @@ def generate(ctx):
     ctx.run_given(history_case(), lambda s: ctx.judge("history", s), ctx.n(8000, 200000))
     ctx.run_given(opt_case(), lambda s: ctx.judge("optfree", s), ctx.n(600, 8000))
     ctx.run_given(opt_case(), lambda s: ctx.judge("optargs", s), ctx.n(1500, 16000))
+    ctx.run_given(opt_case(), lambda s: ctx.judge("optkw", s), ctx.n(1200, 12000))
     ctx.exhaustive["optimizer option combinations (argument-free / argument-passing)"] = \
-        (len(O.OPT_FREE) + len(O.OPT_ARGS)) if ctx.shard == 0 else 0
+        (len(O.OPT_FREE) + len(O.OPT_ARGS) + len(O.OPT_KW)) if ctx.shard == 0 else 0
 
 
 MANIFEST = {
